@@ -4,8 +4,10 @@ Driver ops of the `legacy_attrs` extension (`MdVerif/Model/Ext/LegacyAttrs.lean`
 `legacy.sub <txt>`                        → `<text without the definitions>|<k1>;<v1>;<k2>;<v2>…`  (`ATTR_RE.sub` with the callback's arguments)
 `legacy.run <tree>`                       → `<tree>`                                              (`LegacyAttrs.run`)
 `convertl <on> <tab> <html|xhtml> <src>`  → `ok <str>` | `oof` | `err` | `ood`
+`re.legacyem <k> <s> <pos>`               → `N` | `<end>|<groups 2..>`   (`LegacyUnderscoreProcessor.PATTERNS[k].pattern.match(s, pos)`)
 -/
 import MdVerif.Model.PipelineL
+import MdVerif.Model.Ext.LegacyEm
 import Driver.TreeCodec
 
 namespace Driver
@@ -25,6 +27,11 @@ def legacyHandler : Handler := fun op args =>
     some (match PipelineL.convertL (decBool on) cfg (decStr src) with
           | .ok s => "ok " ++ encStr s
           | .oof => "oof" | .err => "err" | .ood => "ood")
+  | "re.legacyem", [k, s, pos] =>
+    match LegacyEm.legacyMatch (decNat k) (decStr s) (decNat pos) with
+    | none => some "bad-index"
+    | some none => some "N"
+    | some (some (e, gs)) => some (toString e ++ "|" ++ encList gs)
   | _, _ => none
 
 end Driver
